@@ -246,10 +246,11 @@ def var_xml(v):
     gf = v.get("gf")
     if gf:
         out.append("\t\t\t\t<gf>")
-        if "xpts" in gf:
-            out.append("\t\t\t\t\t<xpts>%s</xpts>" % ",".join(fmt_num(x) for x in gf["xpts"]))
-        else:
+        if "xmin" in gf:
             out.append('\t\t\t\t\t<xscale min="%s" max="%s"/>' % (fmt_num(gf["xmin"]), fmt_num(gf["xmax"])))
+        if "xpts" in gf:
+            # (a gf may carry both: the scale is then only the display range, the listed x values are the points)
+            out.append("\t\t\t\t\t<xpts>%s</xpts>" % ",".join(fmt_num(x) for x in gf["xpts"]))
         out.append("\t\t\t\t\t<ypts>%s</ypts>" % ",".join(fmt_num(y) for y in gf["ypts"]))
         out.append("\t\t\t\t</gf>")
     out.append("\t\t\t</%s>" % kind)
